@@ -1,15 +1,19 @@
 package sim
 
 import (
+	"crypto/sha256"
+	"encoding/hex"
 	"fmt"
 	"sort"
 
 	bridgetypes "github.com/tellor-io/layer/x/bridge/types"
+	disputetypes "github.com/tellor-io/layer/x/dispute/types"
 	oracletypes "github.com/tellor-io/layer/x/oracle/types"
 
 	"cosmossdk.io/math"
 
 	sdk "github.com/cosmos/cosmos-sdk/types"
+	stakingtypes "github.com/cosmos/cosmos-sdk/x/staking/types"
 )
 
 // C01 (repeat-call part): pure aggregation / distribution routines are called several times with identical inputs on
@@ -30,10 +34,131 @@ func tipsDigest(l *LabCtx, ctx sdk.Context) string {
 	return s
 }
 
+// ctxDigest hashes the contents of the named module stores as seen through ctx (a branch of the lab state).
+func ctxDigest(l *LabCtx, ctx sdk.Context, names ...string) string {
+	h := sha256.New()
+	for _, n := range names {
+		key := l.C.App.GetKey(n)
+		if key == nil {
+			continue
+		}
+		it := ctx.KVStore(key).Iterator(nil, nil)
+		for ; it.Valid(); it.Next() {
+			k, v := it.Key(), it.Value()
+			h.Write([]byte{byte(len(k) >> 8), byte(len(k))})
+			h.Write(k)
+			h.Write([]byte{byte(len(v) >> 16), byte(len(v) >> 8), byte(len(v))})
+			h.Write(v)
+		}
+		it.Close()
+	}
+	return hex.EncodeToString(h.Sum(nil))[:20]
+}
+
+// repeatOnBranches runs f several times, each time on a fresh branch of the lab state, and compares error, emitted
+// events (types and attributes, in order) and the contents of the module stores f may write.
+func repeatOnBranches(l *LabCtx, site string, detail map[string]interface{}, f func(ctx sdk.Context) error) {
+	first := ""
+	for k := 0; k < 6; k++ {
+		ctx, _ := l.Ctx.CacheContext()
+		ctx = ctx.WithEventManager(sdk.NewEventManager())
+		var err error
+		func() {
+			// a routine called on a state it does not fit may panic (e.g. a negative coin amount): that is an outcome
+			// like any other as long as it is the same outcome every time
+			defer func() {
+				if rec := recover(); rec != nil {
+					err = fmt.Errorf("panic: %v", rec)
+				}
+			}()
+			err = f(ctx)
+		}()
+		ev := ""
+		for _, e := range ctx.EventManager().Events() {
+			ev += e.Type
+			for _, a := range e.Attributes {
+				ev += "|" + a.Key + "=" + a.Value
+			}
+			ev += ";"
+		}
+		evh := sha256.Sum256([]byte(ev))
+		d := fmt.Sprintf("%v|%x|%s", err, evh[:8], ctxDigest(l, ctx, "reporter", "staking", "bank", "distribution", "dispute", "oracle"))
+		l.St.Count("c01.repeat-calls")
+		if k == 0 {
+			first = d
+		} else if d != first {
+			l.Violate("C01", "repeatcall", site+":stores-or-events-differ-between-identical-calls", detail)
+			return
+		}
+	}
+}
+
 func c01LabOne(l *LabCtx) {
 	r := l.R
 	a := l.C.App
 	base := l.Ctx
+	switch r.Pick(6) {
+	case 3: // a dispute fee paid from a reporter's stake in two payments, then refunded
+		refs := harvestRefs(l)
+		if len(refs) == 0 {
+			return
+		}
+		x := refs[r.Pick(len(refs))]
+		total := x.Snap.Total
+		if total.LT(math.NewInt(10)) {
+			return
+		}
+		a1 := total.QuoRaw(int64(3 + r.Pick(20)))
+		a2 := total.QuoRaw(int64(5 + r.Pick(40)))
+		hash := []byte(fmt.Sprintf("c01lab-hash-%d", r.Pick(1000)))
+		l.St.Bucket("c01lab|FeefromReporterStake-twice+FeeRefund|origins=%d", minInt(len(x.Snap.TokenOrigins), 4))
+		repeatOnBranches(l, "FeefromReporterStake+FeeRefund", map[string]interface{}{"reporter": x.Reporter.String(), "origins": len(x.Snap.TokenOrigins)}, func(ctx sdk.Context) error {
+			if err := a.ReporterKeeper.FeefromReporterStake(ctx, x.Reporter, a1, hash); err != nil {
+				return err
+			}
+			if err := a.ReporterKeeper.FeefromReporterStake(ctx, x.Reporter, a2, hash); err != nil {
+				return err
+			}
+			return a.ReporterKeeper.FeeRefund(ctx, hash, a1.Add(a2))
+		})
+		return
+	case 4: // reporter stake escrowed for a dispute and returned
+		refs := harvestRefs(l)
+		if len(refs) == 0 {
+			return
+		}
+		x := refs[r.Pick(len(refs))]
+		power := x.Snap.Total.QuoRaw(1_000_000).Uint64()
+		if power == 0 {
+			return
+		}
+		amt := x.Snap.Total.MulRaw([]int64{1, 5, 100}[r.Pick(3)]).QuoRaw(100)
+		hash := []byte(fmt.Sprintf("c01lab-esc-%d", r.Pick(1000)))
+		l.St.Bucket("c01lab|EscrowReporterStake+ReturnSlashedTokens|origins=%d", minInt(len(x.Snap.TokenOrigins), 4))
+		repeatOnBranches(l, "EscrowReporterStake+ReturnSlashedTokens", map[string]interface{}{"reporter": x.Reporter.String(), "origins": len(x.Snap.TokenOrigins)}, func(ctx sdk.Context) error {
+			if err := a.ReporterKeeper.EscrowReporterStake(ctx, x.Reporter, power, x.Height, amt, x.QueryID, hash); err != nil {
+				return err
+			}
+			// the dispute module sends the coins to the bonded pool before it asks for the stake to be returned
+			if err := a.BankKeeper.SendCoinsFromModuleToModule(ctx, disputetypes.ModuleName, stakingtypes.BondedPoolName, sdk.NewCoins(sdk.NewCoin(Denom, amt))); err != nil {
+				return err
+			}
+			return a.ReporterKeeper.ReturnSlashedTokens(ctx, amt, hash)
+		})
+		return
+	case 5: // one reward divided among the selectors of a report
+		refs := harvestRefs(l)
+		if len(refs) == 0 {
+			return
+		}
+		x := refs[r.Pick(len(refs))]
+		R := math.LegacyNewDec([]int64{1, 7, 1000, 999_999, 123_456_789}[r.Pick(5)])
+		l.St.Bucket("c01lab|DivvyingTips|origins=%d", minInt(len(x.Snap.TokenOrigins), 4))
+		repeatOnBranches(l, "DivvyingTips", map[string]interface{}{"reporter": x.Reporter.String()}, func(ctx sdk.Context) error {
+			return a.ReporterKeeper.DivvyingTips(ctx, x.Reporter, R, x.QueryID, x.Height)
+		})
+		return
+	}
 	switch r.Pick(3) {
 	case 0: // AllocateRewards over generated aggregates
 		refs := harvestRefs(l)
